@@ -501,6 +501,26 @@ func run(sc in, rng *vh.Rng, cert, keyf string) (o obs) {
 	if o.Err != "" {
 		return o
 	}
+	// the scenario starts once the provider's bootstrap dial has reached the bidder (the bidder then
+	// asks the registry about the provider's stake).  On a loaded machine that dial can fail once —
+	// the node retries a minute later; the harness sets the scenario up again instead.
+	reached := false
+	for i := 0; i < 2000 && !reached; i++ {
+		c.mu.Lock()
+		for _, r := range c.calls {
+			if r.Method == "checkStake" {
+				reached = true
+			}
+		}
+		c.mu.Unlock()
+		if !reached {
+			time.Sleep(10 * time.Millisecond)
+		}
+	}
+	if !reached {
+		o.Err = "the provider's bootstrap dial never reached the bidder"
+		return o
+	}
 	o.Started = true
 	creds := grpc.WithTransportCredentials(credentials.NewTLS(&tls.Config{InsecureSkipVerify: true}))
 	ctx, cancel := context.WithTimeout(context.Background(), 30*time.Second)
